@@ -272,7 +272,13 @@ pub fn build<S: Inner>(mw: Mw, mode: Mode, inner: S, ls: Option<Arc<Listeners>>)
         }
         Mw::Fallback => {
             use tower_resilience_fallback::{FallbackError, FallbackLayer};
-            let mut b = FallbackLayer::<Req, Resp, InnerErr>::builder().value(Resp { serial: 777_000, req: 0, key: 0 }).handle(|_e: &InnerErr| false);
+            // (the second configuration: an error-transforming strategy whose predicate refuses
+            // everything - refused errors come back untransformed)
+            let mut b = if mode == Mode::Extreme {
+                FallbackLayer::<Req, Resp, InnerErr>::builder().exception(|e: InnerErr| InnerErr { id: e.id + 5_000, kind: 9 }).handle(|_e: &InnerErr| false)
+            } else {
+                FallbackLayer::<Req, Resp, InnerErr>::builder().value(Resp { serial: 777_000, req: 0, key: 0 }).handle(|_e: &InnerErr| false)
+            };
             if let Some(ls) = &ls {
                 for i in 0..3 {
                     let h = ls.hook(i);
